@@ -146,6 +146,10 @@ TWCCShapes ==
     \* the run lengths add up to 65535, 65536 and 65537 (a sum that is 0 modulo 2^16) under a status count of 65535
     MkTWCC(65535, << Rl(0, 8191), Rl(0, 8191), Rl(0, 8191), Rl(0, 8191), Rl(0, 8191), Rl(0, 8191), Rl(0, 8191), Rl(0, 8191), Rl(0, 8) >>, << >>, FALSE),
     MkTWCC(65535, << Rl(0, 8191), Rl(0, 8191), Rl(0, 8191), Rl(0, 8191), Rl(0, 8191), Rl(0, 8191), Rl(0, 8191), Rl(0, 8191), Rl(0, 9) >>, << >>, FALSE),
+    \* the last chunk is a status vector whose symbols reach past 65535 packets (a 16-bit counter of processed packets wraps)
+    MkTWCC(65535, << Rl(0, 8191), Rl(0, 8191), Rl(0, 8191), Rl(0, 8191), Rl(0, 8191), Rl(0, 8191), Rl(0, 8191), Rl(0, 8191), Rl(0, 2), Sv2(<< 1, 0, 2, 0, 1 >>) >>,
+           << Dl(1, 1), Dl(2, -2), Dl(1, 3) >>, FALSE),
+    MkTWCC(65530, << Rl(0, 8191), Rl(0, 8191), Rl(0, 8191), Rl(0, 8191), Rl(0, 8191), Rl(0, 8191), Rl(0, 8191), Rl(0, 8191), Sv1(<< 1, 0 >>) >>, << Dl(1, 9) >>, FALSE),
     \* an even number of chunks and no deltas: the last chunk ends exactly where the packet ends
     MkTWCC(2, << Rl(0, 1), Rl(0, 1) >>, << >>, FALSE),
     MkTWCC(20, << Rl(0, 3), Sv1(<< 0, 0, 0 >>), Rl(0, 2), Sv2(<< 0 >>) >>, << >>, FALSE),
@@ -512,7 +516,11 @@ RelDom ==
     MkXR(<< [XrB("prt") EXCEPT !.t = 0, !.bs = 4711, !.es = 4714, !.times = << D4(33), D4(37), D4(41), D4(45) >>], XrB("rrt") >>),
     MkXR(<< [XrB("prt") EXCEPT !.t = 0, !.bs = 4711, !.es = 4714, !.times = << D4(33), D4(37) >>], XrB("rrt") >>),
     MkXR(<< [XrB("prt") EXCEPT !.t = 0, !.bs = 65535, !.es = 1, !.times = << D4(33), D4(37), D4(41) >>] >>),
-    MkXR(<< [XrB("lrle") EXCEPT !.t = 0, !.bs = 10, !.es = 25, !.chunks = << 54613, 54613 >>] >>) }
+    MkXR(<< [XrB("lrle") EXCEPT !.t = 0, !.bs = 10, !.es = 25, !.chunks = << 54613, 54613 >>] >>),
+    \* statistics a receiver would report: lost and duplicate counts related to the interval (received = span - lost + dup)
+    MkXR(<< [XrB("ss") EXCEPT !.l = TRUE, !.d = TRUE, !.bs = 21000, !.es = 21100, !.lost = << 0, 0, 0, 107 >>, !.dup = << 0, 0, 0, 7 >>] >>),
+    MkXR(<< [XrB("ss") EXCEPT !.l = TRUE, !.d = TRUE, !.bs = 21000, !.es = 21100, !.lost = << 0, 0, 0, 100 >>, !.dup = << 0, 0, 0, 0 >>] >>),
+    MkXR(<< [XrB("ss") EXCEPT !.l = TRUE, !.d = FALSE, !.bs = 65500, !.es = 64, !.lost = << 0, 0, 0, 100 >>, !.dup = << 0, 0, 0, 1 >>] >>) }
 
 \* ---- RFC 3611 gives some mid-range values a meaning (127 = unavailable); two such fields at once, on a block
 \* whose other fields hold ordinary values ---------------------------------------------------------------
